@@ -74,8 +74,7 @@ def ref(output_uri, input_uris, mergebuf, columns=None, dtypes=None, agg=None, *
                 raise ValueError("missing column")
             else:
                 seen[col].append(have[col])
-    if dtypes is None:
-        dtypes = {}
+    dtypes = {} if dtypes is None else dict(dtypes)      # a private copy: the caller's dict is never written (F28)
     for col in columns:
         if col not in dtypes:
             dtypes[col] = np.result_type(*seen[col])
